@@ -2,7 +2,6 @@ package config
 
 import (
 	"fmt"
-	"math"
 	gotemplate "text/template"
 
 	"github.com/nginx/nginx-gateway-fabric/internal/framework/helpers"
@@ -59,9 +58,9 @@ func createSplitClientDistributions(group dataplane.BackendGroup) []http.SplitCl
 
 	backends := group.Backends
 
-	totalWeight := int32(0)
+	totalWeight := int64(0)
 	for _, b := range backends {
-		totalWeight += b.Weight
+		totalWeight += int64(b.Weight)
 	}
 
 	if totalWeight == 0 {
@@ -73,33 +72,41 @@ func createSplitClientDistributions(group dataplane.BackendGroup) []http.SplitCl
 		}
 	}
 
+	// The last backend with a non-zero weight gets the remaining percentage.
+	// A backend with a zero weight must not receive any traffic, so it never gets the remainder.
+	remainderIdx := 0
+	for i, b := range backends {
+		if b.Weight > 0 {
+			remainderIdx = i
+		}
+	}
+
 	distributions := make([]http.SplitClientDistribution, 0, len(backends))
 
-	// The percentage of all backends cannot exceed 100.
-	availablePercentage := float64(100)
+	// Percentages are computed in hundredths of a percent using integer arithmetic,
+	// so that the formatted values are exact. The percentage of all backends cannot exceed 100.
+	availableHundredths := int64(maxPercentHundredths)
 
-	// Iterate over all backends except the last one.
-	// The last backend will get the remaining percentage.
-	for i := range len(backends) - 1 {
-		b := backends[i]
+	for i, b := range backends {
+		var hundredths int64
 
-		percentage := percentOf(b.Weight, totalWeight)
-		availablePercentage -= percentage
+		switch {
+		case i < remainderIdx:
+			hundredths = percentHundredthsOf(b.Weight, totalWeight)
+			availableHundredths -= hundredths
+		case i == remainderIdx:
+			// This is done to guarantee that the sum of all percentages is 100.
+			hundredths = availableHundredths
+		default:
+			// all backends after the remainder backend have a zero weight.
+			hundredths = 0
+		}
 
 		distributions = append(distributions, http.SplitClientDistribution{
-			Percent: fmt.Sprintf("%.2f", percentage),
+			Percent: formatPercentHundredths(hundredths),
 			Value:   getSplitClientValue(b),
 		})
 	}
-
-	// The last backend gets the remaining percentage.
-	// This is done to guarantee that the sum of all percentages is 100.
-	lastBackend := backends[len(backends)-1]
-
-	distributions = append(distributions, http.SplitClientDistribution{
-		Percent: fmt.Sprintf("%.2f", availablePercentage),
-		Value:   getSplitClientValue(lastBackend),
-	})
 
 	return distributions
 }
@@ -111,14 +118,29 @@ func getSplitClientValue(b dataplane.Backend) string {
 	return invalidBackendRef
 }
 
+// maxPercentHundredths is 100% expressed in hundredths of a percent.
+const maxPercentHundredths = 100 * 100
+
+// percentHundredthsOf returns the percentage of a weight out of a totalWeight in hundredths of a percent,
+// rounded down. Rounding down guarantees that the sum of all percentages does not exceed 100.
+// Ex. percentHundredthsOf(2, 3) = 6666
+// Ex. percentHundredthsOf(800, 2000) = 4000.
+func percentHundredthsOf(weight int32, totalWeight int64) int64 {
+	return int64(weight) * maxPercentHundredths / totalWeight
+}
+
+// formatPercentHundredths formats hundredths of a percent as a percentage with 2 decimal places.
+// Ex. formatPercentHundredths(6666) = "66.66".
+func formatPercentHundredths(hundredths int64) string {
+	return fmt.Sprintf("%d.%02d", hundredths/100, hundredths%100)
+}
+
 // percentOf returns the percentage of a weight out of a totalWeight.
-// The percentage is rounded to 2 decimal places using the Floor method.
-// Floor is used here in order to guarantee that the sum of all percentages does not exceed 100.
+// The percentage is rounded down to 2 decimal places.
 // Ex. percentOf(2, 3) = 66.66
 // Ex. percentOf(800, 2000) = 40.00.
 func percentOf(weight, totalWeight int32) float64 {
-	p := (float64(weight) * 100) / float64(totalWeight)
-	return math.Floor(p*100) / 100
+	return float64(percentHundredthsOf(weight, int64(totalWeight))) / 100
 }
 
 func backendGroupNeedsSplit(group dataplane.BackendGroup) bool {
